@@ -6,9 +6,16 @@ Open Scope Z_scope.
 
 (* ================================================================= generic sums *)
 Lemma Zsum_app a b : Zsum (a ++ b) = Zsum a + Zsum b.
-Proof. unfold Zsum. induction a as [|x a IH]; cbn; [reflexivity | rewrite IH; lia]. Qed.
+Proof.
+  induction a as [|x a IH]; [reflexivity|].
+  change (Zsum (x :: (a ++ b)) = Zsum (x :: a) + Zsum b). change (x + Zsum (a ++ b) = x + Zsum a + Zsum b). lia.
+Qed.
+Lemma Zsum_cons x l : Zsum (x :: l) = x + Zsum l.
+Proof. reflexivity. Qed.
 Lemma fold_add_Zsum l : forall a, fold_left Z.add l a = a + Zsum l.
-Proof. induction l as [|x l IH]; intros a; cbn; [lia | rewrite IH; lia]. Qed.
+Proof.
+  induction l as [|x l IH]; intros a; cbn [fold_left]; [change (Zsum []) with 0; lia | rewrite IH, Zsum_cons; lia].
+Qed.
 Lemma sum_coin_app a b : sum_coin (a ++ b) = sum_coin a + sum_coin b.
 Proof. unfold sum_coin. now rewrite map_app, Zsum_app. Qed.
 Lemma sum_content_app a b p n : sum_content (a ++ b) p n = sum_content a p n + sum_content b p n.
@@ -69,9 +76,9 @@ Lemma deposits_from_ext pp cs : forall s1 s2, (forall x, memb x s1 = memb x s2) 
   deposits_from pp s1 cs = deposits_from pp s2 cs.
 Proof.
   induction cs as [|c cs IH]; intros s1 s2 H; [reflexivity|].
-  destruct c; cbn [deposits_from]; try (now rewrite (IH s1 s2 H)).
+  destruct c as [ | | |operator| |d|d| | |d|d|d| | |d|d| ]; cbn [deposits_from]; try (now rewrite (IH s1 s2 H)).
   rewrite (H operator). destruct (pool_registered pp operator || memb operator s2); [now apply IH|].
-  f_equal. apply IH. intros x. cbn. now rewrite H.
+  f_equal. apply IH. intros x. unfold memb in *. cbn [existsb]. now rewrite H.
 Qed.
 
 Lemma memb_app x s y : memb x (s ++ [y]) = memb x s || bytes_eqb x y.
@@ -86,16 +93,16 @@ Lemma kd_fold kd pd initial certs : forall a,
   = kd_val kd pd a + deposits_from pp (k_pools a) certs - refunds pp certs.
 Proof.
   induction certs as [|c certs IH]; intros a pp; [unfold kd_val, refunds; cbn; lia|].
-  cbn [fold_left]. rewrite IH. fold pp. unfold refunds. cbn [map Zsum fold_right].
-  destruct c; cbn [kd_step deposits_from deposit_of refund_of k_count k_explicit k_refund k_pools key_deposit pool_deposit pp];
+  cbn [fold_left]. rewrite IH. fold pp. unfold refunds. cbn [map]. rewrite Zsum_cons.
+  destruct c as [ | | |operator| |d|d| | |d|d|d| | |d|d| ]; cbn [kd_step deposits_from deposit_of refund_of k_count k_explicit k_refund k_pools key_deposit pool_deposit pp];
     unfold kd_val; cbn [k_count k_explicit k_refund k_pools]; try lia.
   (* PoolReg *)
-  cbn [pool_registered]. destruct initial; cbn [negb orb].
+  unfold pp. cbn [pool_registered]. destruct initial; cbn [negb orb].
   - unfold set_add. destruct (memb operator (k_pools a)) eqn:M; cbn [k_count k_explicit k_refund k_pools]; [lia|].
     rewrite app_length. cbn [length].
     rewrite (deposits_from_ext (mkParams kd pd (fun _ => false)) certs (k_pools a ++ [operator]) (operator :: k_pools a)).
-    + lia.
-    + intros x. rewrite memb_app. cbn. apply orb_comm.
+    + rewrite Nat2Z.inj_add. cbn [Z.of_nat length]. lia.
+    + intros x. rewrite memb_app. unfold memb. cbn [existsb]. apply orb_comm.
   - lia.
 Qed.
 
@@ -134,7 +141,7 @@ Definition covers (arr : list masset) (m : masset) : Prop := forall p n, sum_con
 
 Section CalcProofs.
   Variable minada : value -> Z.
-  Variable pack : value -> list masset.
+  Variable pack : value -> option (list masset).
 
   Lemma wfv_requested fee outs : Forall wfv outs ->
     coin (requested fee outs) = fee + sum_coin outs
@@ -215,12 +222,13 @@ Section CalcProofs.
          for every asset IF AND ONLY IF the packing covers the change bundle *)
   Theorem calc_change_sum st respect fee ins outs chs :
     Forall wfv ins -> Forall wfv outs -> wfm (b_mint st) ->
-    pack (change_of st fee ins outs) <> [] ->
+    pack (change_of st fee ins outs) <> Some [] ->
     calc_change minada pack st respect fee ins outs = inr chs ->
     sum_coin chs = coin (provided st ins) - coin (requested fee outs)
     /\ ((forall p n, sum_tok chs p n = content (massets (provided st ins)) p n - content (massets (requested fee outs)) p n)
-        <-> (is_nil (massets (change_of st fee ins outs)) = false ->
-             covers (pack (change_of st fee ins outs)) (massets (change_of st fee ins outs)))).
+        <-> (forall arr, is_nil (massets (change_of st fee ins outs)) = false ->
+                         pack (change_of st fee ins outs) = Some arr ->
+                         covers arr (massets (change_of st fee ins outs)))).
   Proof.
     intros Wi Wo Wm NE H. unfold calc_change in H.
     destruct (v_lt (requested fee outs) (provided st ins)) eqn:L; [|discriminate]. cbn [negb] in H.
@@ -228,11 +236,12 @@ Section CalcProofs.
     set (ch := change_of st fee ins outs) in *.
     destruct (is_nil (massets ch)) eqn:E.
     - destruct (respect && (coin ch <? minada ch)); [discriminate|]. inversion H; subst.
-      split; [unfold sum_coin; cbn; lia|]. split; [intros _ X; discriminate|]. intros _ p n.
+      split; [unfold sum_coin; cbn; lia|]. split; [intros _ arr X; discriminate|]. intros _ p n.
       rewrite <- M. destruct (massets ch); [|discriminate]. reflexivity.
-    - apply change_loop_sum in H as [Hc Hm]; [|exact NE]. split; [lia|].
+    - destruct (pack ch) as [arr|] eqn:P; [|discriminate].
+      apply change_loop_sum in H as [Hc Hm]; [|intros ->; now apply NE]. split; [lia|].
       unfold covers. unfold sum_tok. rewrite Hm. split.
-      + intros X _ p n. rewrite X. symmetry. apply M.
-      + intros X p n. rewrite (X eq_refl). apply M.
+      + intros X arr' _ Ha p n. inversion Ha; subst arr'. rewrite X. symmetry. apply M.
+      + intros X p n. rewrite (X arr eq_refl eq_refl). apply M.
   Qed.
 End CalcProofs.
